@@ -33,6 +33,38 @@ FUNCS = [
     spec('insert_or_assign_0', 'insert_or_assign', False, True, 0, 2), spec('insert_or_assign_1', 'insert_or_assign', False, True, 1, 2),
     spec('insert_or_assign_hint_0', 'insert_or_assign', True, True, 0, 2), spec('insert_or_assign_hint_1', 'insert_or_assign', True, True, 1, 2),
 ]
+# ---- merge(&&) / merge_or_update(&&), with and without hint: one iteration of the loop over the members of the source (an arbitrary member, its key is vx_name)
+M_RULES = [
+    (r'for \(; it != end; \+\+it\)', '', 1),
+    (r'std::lower_bound\(([^,;]+),\s*data_\.end\(\), \(\*it\)\.key\(\),\s*Comp\(\)\);', r'vx_lower_bound(\1, vx_size);', 1, 2),
+    (r'\bauto pos = ', 'size_t pos = ', 0, 1), (r'\biterator pos;', 'size_t pos;', 0, 1),
+    (r'hint->key\(\) (<=|<|>=|>|==|!=) \(\*it\)\.key\(\)', r'vx_key_at(hint) \1 vx_name', 0, 1), (r'\(\*it\)\.key\(\) (==|!=) pos->key\(\)', r'vx_name \1 vx_key_at(pos)', 0, 2),
+    (r'data_\.emplace_back\(\*it\);', 'vx_emplace(vx_size);', 1), (r'data_\.emplace\(pos,\s*\*it\)', 'vx_emplace(pos)', 0, 1), (r'pos->value\(\(\*it\)\.value\(\)\);', 'vx_assign(pos);', 0, 1),
+    (r'data_\.begin\(\) \+ \(?data_\.size\(\) - 1\)?', '(vx_size - 1)', 0, 1), (r'data_\.end\(\)', 'vx_size', 0, 3), (r'data_\.begin\(\)', '(size_t)0', 0, 3),
+]
+def merge_contract(update, hinted):
+    pre = ('vx_size <= 100000000 && vx_size == vx_size0 && vx_inserts == 0 && vx_assigns == 0 && vx_t_n <= 1 && (vx_has_w ==> (vx_w < vx_size && vx_t_n == 1 && vx_t_idx[0] == vx_w && vx_t_key[0] == vx_wkey)) && (!vx_has_w ==> (vx_size == 0 && vx_t_n == 0))'
+           + (' && *hint_p <= vx_size' if hinted else ''))
+    c = [('requires', pre),
+         ('assigns', 'vx_size, vx_inserts, vx_assigns, vx_ins_pos, vx_assign_pos, vx_t_n, __CPROVER_object_whole(vx_t_idx), __CPROVER_object_whole(vx_t_key)' + (', *hint_p' if hinted else '')),
+         ('ensures', '[C09] merging one member of the source: keys stay unique - it is inserted only if no member has its name (watched member: any)', '(vx_inserts == 1 && vx_has_w) ==> vx_wkey != vx_name'),
+         ('ensures', '[C09] ... and the vector stays sorted: it goes after every smaller key and before every larger key', '(vx_inserts == 1 && vx_has_w) ==> ((vx_w < vx_ins_pos) == (vx_wkey < vx_name))'),
+         ('ensures', '[C09] a member whose name is not in the object is inserted, never dropped: nothing is inserted only when a member with that name was seen', 'vx_inserts <= 1 && vx_size == vx_size0 + vx_inserts && (vx_inserts == 0 ==> vx_touched_has_name())')]
+    if update:
+        c += [('ensures', '[C09] merge_or_update: a member that has the name gets the new value; no other member is ever assigned (watched member: any)',
+               '(vx_has_w && vx_wkey == vx_name) ==> (vx_inserts == 0 && vx_assigns == 1 && vx_assign_pos == vx_w)'),
+              ('ensures', '[C09] ... exactly one of insert and assign happens, and the member assigned is one with that name', 'vx_inserts + vx_assigns == 1 && ((vx_assigns == 1 && vx_has_w && vx_w == vx_assign_pos) ==> vx_wkey == vx_name)')]
+    else:
+        c += [('ensures', '[C09] merge: a member that has the name is kept as it is', 'vx_assigns == 0 && ((vx_has_w && vx_wkey == vx_name) ==> vx_inserts == 0)')]
+    if hinted:
+        c += [('ensures', '[C09][C05] the hint carried to the next member stays a position of the vector', '*hint_p <= vx_size')]
+    return c
+def mspec(cname, cxx, hinted, update):
+    params = r'\(iterator hint, sorted_json_object&& source\)' if hinted else r'\(sorted_json_object&& source\)'
+    return FuncSpec(cname, F, r'void %s%s' % (cxx, params), count=1, csig='void %s(%s)' % (cname, 'size_t* hint_p' if hinted else 'void'), contract=merge_contract(update, hinted), rules=M_RULES,
+                    aliases={'hint': '(*hint_p)'} if hinted else None, slice_from=r'for \(; it != end; \+\+it\)')
+MERGES = [mspec('merge_step', 'merge', False, False), mspec('merge_hint_step', 'merge', True, False), mspec('merge_or_update_step', 'merge_or_update', False, True), mspec('merge_or_update_hint_step', 'merge_or_update', True, True)]
 SPECS = []
-GROUPS = {'funcs': FUNCS}
-HARNESSES = [Harness(f.name, 'h_' + f.name, enforce=f.name, method='LF', props=['C09'], unwind=14) for f in FUNCS]
+GROUPS = {'funcs': FUNCS, 'merges': MERGES}
+HARNESSES = [Harness(f.name, 'h_' + f.name, enforce=f.name, method='LF', props=['C09'], unwind=14) for f in FUNCS] + [
+    Harness(f.name, 'h_' + f.name, enforce=f.name, method='LF', props=['C09'], unwind=14, note='one iteration of the loop over the (moved-from) source object, for an arbitrary source member; the whole merge follows by induction over the source members') for f in MERGES]
